@@ -138,22 +138,44 @@ func ruleR9() *Rule {
 				site := callers[0]
 				dec := site.Parent()
 				dname := funcShortName(dec)
-				// decrement store
+				// decrement store: in dec itself, or in an unexported helper it calls on the same segment
+				// (`unref()`: drops one reference and reports whether it was the last)
 				var decStore *ssa.Store
-				eachInstr(dec, func(_ *ssa.BasicBlock, in ssa.Instruction) {
-					st, ok := in.(*ssa.Store)
-					if !ok {
-						return
-					}
-					if sn, fld, _, ok := fieldOf(st.Addr); !ok || sn != "Segment" || fld != "refs" {
-						return
-					}
-					if bo, ok := st.Val.(*ssa.BinOp); ok && bo.Op == token.SUB && isLoadOfField(bo.X, "Segment", "refs") {
-						if k, ok := constInt64(bo.Y); ok && k == 1 {
-							decStore = st
+				var decHelper *ssa.Function
+				var decHelperCall ssa.CallInstruction
+				findDec := func(f *ssa.Function) *ssa.Store {
+					var found *ssa.Store
+					eachInstr(f, func(_ *ssa.BasicBlock, in ssa.Instruction) {
+						st, ok := in.(*ssa.Store)
+						if !ok {
+							return
+						}
+						if sn, fld, _, ok := fieldOf(st.Addr); !ok || sn != "Segment" || fld != "refs" {
+							return
+						}
+						if bo, ok := st.Val.(*ssa.BinOp); ok && bo.Op == token.SUB && isLoadOfField(bo.X, "Segment", "refs") {
+							if k, ok := constInt64(bo.Y); ok && k == 1 {
+								found = st
+							}
+						}
+					})
+					return found
+				}
+				decStore = findDec(dec)
+				if decStore == nil {
+					for _, cs := range callSites(dec) {
+						h := staticCallee(cs)
+						if h == nil || !p.InZap(h) || h.Object() == nil || h.Object().Exported() || len(h.Params) == 0 || len(cs.Common().Args) == 0 {
+							continue
+						}
+						if root(cs.Common().Args[0]) != ssa.Value(dec.Params[0]) {
+							continue
+						}
+						if st := findDec(h); st != nil {
+							decStore, decHelper, decHelperCall = st, h, cs
 						}
 					}
-				})
+				}
 				c.check(decStore != nil, "decrement", c.fpos(dec), dname+" decrements Segment.refs by one", "no `refs = refs - 1` store found in the caller of the release routine")
 				// guard
 				zeroGuard := func(at ssa.Instruction) (bool, string) {
@@ -168,7 +190,22 @@ func ruleR9() *Rule {
 						if !ok {
 							continue
 						}
-						bo, ok := iff.Cond.(*ssa.BinOp)
+						cond, negated := iff.Cond, false
+						for {
+							if u, ok := cond.(*ssa.UnOp); ok && u.Op == token.NOT {
+								cond, negated = u.X, !negated
+								continue
+							}
+							break
+						}
+						viaHelper := false
+						if call, ok := cond.(*ssa.Call); ok && decHelper != nil && ssa.CallInstruction(call) == decHelperCall {
+							// the answer of the helper that decrements: its (single) return value is the test
+							if rets := returnsOf(decHelper); len(rets) == 1 && len(rets[0].Results) == 1 {
+								cond, viaHelper = rets[0].Results[0], true
+							}
+						}
+						bo, ok := cond.(*ssa.BinOp)
 						if !ok {
 							continue
 						}
@@ -212,9 +249,22 @@ func ruleR9() *Rule {
 						default:
 							continue
 						}
+						if negated {
+							towardsTrue = !towardsTrue
+						}
 						// the decrement must precede the guard
-						if decStore != nil && !(decStore.Block() == pb || decStore.Block().Dominates(pb)) {
+						if viaHelper {
+							if !(decStore.Block() == bo.Block() || decStore.Block().Dominates(bo.Block())) {
+								continue
+							}
+						} else if decStore != nil && decHelper == nil && !(decStore.Block() == pb || decStore.Block().Dominates(pb)) {
 							continue
+						} else if decHelper != nil && !viaHelper {
+							// the helper that decrements ran before this test
+							hb := decHelperCall.Block()
+							if !(hb == pb || hb.Dominates(pb)) {
+								continue
+							}
 						}
 						table := map[int64]bool{}
 						okT := true
